@@ -1043,6 +1043,16 @@ def raise_types(rep, idx):
                 if n.exc is None or getattr(n, "_inlined_from", None):
                     continue                                            # re-raise / copy of a helper's raise (classified there)
                 e = n.exc.func if isinstance(n.exc, ast.Call) else n.exc
+                if ast.unparse(e) == "NotImplementedError" and f.cls is not None:
+                    # an abstract hook of a private base class: unreachable when every subclass in the package overrides it
+                    body = [s for s in f.node.body if not (isinstance(s, ast.Expr) and isinstance(s.value, ast.Constant))]
+                    subs = [k for k in idx.all_classes() if k is not f.cls and f.cls in idx.bases_of(k)]
+                    direct = [k for k in subs if any(b is f.cls for b in idx.bases_of(k)[:1]) or f.cls in idx.bases_of(k)]
+                    if len(body) == 1 and body[0] is n and f.cls.name.startswith("_") and direct and \
+                            all(idx.lookup_method(k, f.name) is not None and idx.lookup_method(k, f.name).node is not f.node for k in direct):
+                        rep.ok("C19.5", f.site, "raise NotImplementedError", f"abstract hook of the private base class {f.cls.name}: every subclass "
+                               f"({', '.join(sorted(k.name for k in direct))}) overrides it", nontrivial=False)
+                        continue
                 if isinstance(n.exc, ast.Name):
                     # raise <local>: an exception object built earlier in the same function -- classify its constructor
                     defs = [s for s in ast.walk(f.node) if isinstance(s, ast.Assign) and len(s.targets) == 1 and
@@ -1193,6 +1203,8 @@ def joins(rep, idx):
         for n in ast.walk(f.node):
             if isinstance(n, ast.Call) and isinstance(n.func, ast.Attribute) and n.func.attr == "join" and len(n.args) == 1 and \
                     isinstance(n.func.value, ast.Constant) and isinstance(n.func.value.value, str):
+                if getattr(n, "_inlined_from", None):
+                    continue                            # a copy of a helper's statement: classified where it is written
                 a = n.args[0]
                 what = f"{n.func.value.value!r}.join({ast.unparse(a)[:50]})"
                 if isinstance(a, (ast.GeneratorExp, ast.ListComp)):
@@ -1208,10 +1220,26 @@ def joins(rep, idx):
                                 "so str.join raises TypeError instead of producing the name; map the parts through str()")
                     elif (f.site, a.id) in JOIN_TABLE:
                         rep.ok("C19.6", f.site, what, "table: " + JOIN_TABLE[(f.site, a.id)], nontrivial=False)
+                    elif [k for k in JOIN_TABLE if k[1] == a.id and k[0].split("::")[0] == f.site.split("::")[0] and
+                          not any(g.site == k[0] and any(isinstance(x, ast.Name) and x.id == a.id for x in ast.walk(g.node)) for g in idx.all_functions())]:
+                        # the tabled statement moved to another function of the same file (the tabled function no longer mentions the name)
+                        k = [k for k in JOIN_TABLE if k[1] == a.id and k[0].split("::")[0] == f.site.split("::")[0]][0]
+                        rep.ok("C19.6", f.site, what, "table (statement moved within the file): " + JOIN_TABLE[k], nontrivial=False)
                     elif _list_of_strings(f, a.id):
                         rep.ok("C19.6", f.site, what, f"`{a.id}` is a local list that only ever receives f-strings / str() values", nontrivial=False)
                     else:
                         rep.unk("C19.6", f.site, what, f"`{a.id}` is not known to hold strings only")
+                elif isinstance(a, ast.Call) and isinstance(a.func, ast.Attribute) and isinstance(a.func.value, ast.Name) and a.func.value.id == "self" and \
+                        f.cls is not None and idx.lookup_method(f.cls, a.func.attr) is not None:
+                    # a generator helper: every value it yields must be a string
+                    h = idx.lookup_method(f.cls, a.func.attr)
+                    ys = [y for y in ast.walk(h.node) if isinstance(y, ast.Yield)]
+                    yf = [y for y in ast.walk(h.node) if isinstance(y, ast.YieldFrom)]
+                    if ys and not yf and all(isinstance(y.value, ast.JoinedStr) or (isinstance(y.value, ast.Call) and isinstance(y.value.func, ast.Name) and
+                                                                                  y.value.func.id in ("str", "repr", "format")) for y in ys):
+                        rep.ok("C19.6", f.site, what, f"{h.qual}() yields f-strings / str() values only", nontrivial=False)
+                    else:
+                        rep.unk("C19.6", f.site, what, "cannot tell whether the helper yields strings only")
                 else:
                     rep.unk("C19.6", f.site, what, "unrecognised join argument")
 
